@@ -18,4 +18,59 @@ PROPS = {
              "definitions; not covered: IdentityDict.__init__/__iter__/__eq__/__repr__ (comprehensions, super()), functools.update_wrapper plumbing",
     ),
 }
+TECH = "contract-based deductive verification: VCs generated from the real source ASTs by pyvc (sidecar contracts, loop invariants, ghost state), discharged by z3/cvc5"
+EI_NOTE = ("trusted: pyvc executor/encoding, z3/cvc5; hooks modelled as oracles (any result, any Exception, may set hide/hide_line/contexts "
+           "of the Frame they get); hook Sequence results are builtin tuples/lists and do not alias the private error list; "
+           "BaseException-only exceptions pass through by design; partial correctness (termination / F9 hang not covered)")
+
+PROPS["C05"] = dict(
+    level="proof", contracts=["contracts.extract_iter", "contracts.c13"],
+    unit_filter=lambda u: u.name in ("C05.extract_iter", "C13.extract_child", "C13.extract"),
+    legs=[], technique=TECH,
+    claim="extract_iter (whole real body, all 8 loops cut by invariants), extract_child and extract are executed symbolically from their "
+          "entries: no path lets an Exception escape (every hook call site is inside a handler that records it; every pop/index/unpack/"
+          "assert is safe); the error ledger clause shows save_errors grows by exactly the exceptions raised, in order, and extract_child "
+          "turns it into error None / the single error / an ExceptionGroup; an elaborate_frame fault keeps and un-hides the frame. "
+          "'identical to the fault-free extraction' is covered only through the per-iteration step clauses (C10) plus append-only frames.",
+    note=EI_NOTE + "; formatting of the result after a fault is C18/C19's subject")
+PROPS["C10"] = dict(
+    level="proof", contracts=["contracts.extract_iter", "contracts.small_units"],
+    unit_filter=lambda u: u.name in ("C05.extract_iter", "C10.frame_iterator_next"),
+    legs=[], technique=TECH,
+    claim="Step refinement of the documented rules by the two-deque loop, proved per outer iteration for all queue contents and hook results: "
+          "the head frame is yielded; None keeps the rest; otherwise the queue is moved back in order, the replace form drops exactly the "
+          "longest prefix with depth >= the frame's depth (dropWhile), the insert form drops nothing and omits the trailing next_inner, "
+          "then the items are pushed at the frame's depth in order; loops_since_progress <= 100 is invariant and exceeding it records a "
+          "RuntimeError and makes the item irreducible. The composition over iterations (simulation) and the exact content pushed by the "
+          "unwrap step (None members filtered) are argued in DESIGN.md, not machine-checked; termination is not proved (known finding F9).",
+    note=EI_NOTE)
+PROPS["C11"] = dict(
+    level="proof", contracts=["contracts.c11"], legs=[], technique=TECH,
+    claim="fill_context's loop is cut by an invariant: elaborate_context runs on the current manager, unwrap_context sees it as elaborate left "
+          "it; a returned manager replaces obj and resets inner_stack/children before re-elaboration (invariant for k>0); None stops with "
+          "nothing else changed; PRUNE sets hide and stops; 100 iterations end in RuntimeError after one extra unwrap call; outside an "
+          "extraction it pushes (True, False), calls itself, and restores the unset options. The generator-based dispatch "
+          "(unwrap_generatorbased_contextmanager) is under contract in the C09/C11 glue units.",
+    note="hooks as oracles: elaborate_context may set obj/inner_stack/children/hide/description/varname and raise; unwrap_context returns or raises")
+PROPS["C13"] = dict(
+    level="proof", contracts=["contracts.c13", "contracts.extract_iter", "contracts.c11"],
+    unit_filter=lambda u: u.name.startswith("C13.") or u.name in ("C05.extract_iter", "C11.fill_context.outside"),
+    legs=[], technique=TECH,
+    claim="push() restores both fields on every exit of the with-body (normal or exceptional) and the body sees exactly the arguments; "
+          "extract / extract_outermost push exactly their arguments and restore on every exit incl. the raise paths; extract_child refuses "
+          "outside an extraction, returns a frameless stub (root only, no hook or generator step) for for_task without recursion, and "
+          "leaves the options untouched; with_contexts=False never calls context analysis. Thread scoping: the model reads the class "
+          "definition — if ExtractOptions is not a threading.local every read of the fields returns an arbitrary value (interference) "
+          "and the clauses are refuted.",
+    note="threading.local semantics assumed (per-thread attribute namespace); contextlib.contextmanager protocol assumed; schedules are not "
+         "explored, thread-locality is a rely condition")
+PROPS["C16"] = dict(
+    level="proof", contracts=["contracts.c16", "contracts.extract_iter", "contracts.c13"],
+    unit_filter=lambda u: u.name in ("C16.better_origin", "C05.extract_iter", "C13.extract_outermost"),
+    legs=[], technique=TECH,
+    claim="better_origin's result is characterised exactly; at the only place a Frame is built in extract_iter a non-None origin is a "
+          "generator-like object whose own gi_frame/cr_frame/ag_frame IS that frame, and a generator-like origin arriving with its own "
+          "frame is kept; queue entries carry a weak-referenceable generator-like item as its own origin; extract_outermost returns the "
+          "first value yielded by the same generator under the same options and raises group / single error / RuntimeError otherwise.",
+    note=EI_NOTE + "; that extract_outermost(origin) unwraps to origin's own frame relies on the built-in unwrapper contracts (C03 glue units)")
 NOT_APPLICABLE = {}
